@@ -77,7 +77,15 @@ impl<'a> PrettyPrinter<'a> {
         // not only between the items.
         let has_comment = has_comment_descendant(import.to_untyped());
         let import_items_doc = self.convert_import_items(ctx, import_items_nodes, has_comment);
-        prefix_doc + self.arena.space() + import_items_doc
+        // A line comment at the end of the prefix must not swallow the items.
+        let ends_with_line_comment =
+            (prefix_part.last()).is_some_and(|node| node.kind() == SyntaxKind::LineComment);
+        let separator = if ends_with_line_comment {
+            self.arena.hardline()
+        } else {
+            self.arena.space()
+        };
+        prefix_doc + separator + import_items_doc
     }
 
     fn convert_import_items(
